@@ -59,8 +59,23 @@ def case_strategy(draw, tier):
         # priority levels taken from time stamps / packed counters: huge and close together, still distinct levels
         base = draw(st.sampled_from([2 ** 53, 1_760_000_000_000_000_000, 2 ** 60]))
         prios = [[[k, (base + abs(v) * draw(st.integers(1, 3))) * (1 if v > 0 else -1)] for k, v in pr] for pr in prios]
-        return {"model": spec, "prios": prios, "huge_levels": True}
-    return {"model": spec, "prios": prios}
+        return {"model": spec, "prios": prios, "huge_levels": True, "via": draw(st.sampled_from([0, 0, 1, 2]))}
+    return {"model": spec, "prios": prios, "via": draw(st.sampled_from([0, 0, 0, 1, 1, 2]))}
+
+
+def _obtain(c, spec, via, ev):
+    """the configurator as users come by it: built with the constructors (0), loaded from its JSON document (1), or grown
+    with add() from the configurator without its last rule (2). The expectations are derived from the spec in every case."""
+    import json
+    import puan.modules.configurator as cc
+    if via == 1:
+        ev.count("loaded_from_json")
+        return call(cc.StingyConfigurator.from_json, json.loads(json.dumps(call(c.to_json, what="to_json"))), what="StingyConfigurator.from_json")
+    if via == 2 and spec.get("k") == "Stingy" and len(spec["c"]) >= 2 and spec["c"][-1]["k"] not in ("leaf", "ref"):
+        ev.count("grown_with_add")
+        base = call(build.model, dict(spec, c=spec["c"][:-1]), what="constructing the configurator")
+        return call(base.add, build.node(spec["c"][-1], []), what="add()")
+    return c
 
 
 def _check_request(c, prios, ids, nd_ids, cols, ev, round_no):
@@ -129,6 +144,7 @@ def check(case, ev):
     if c is None:
         return
     build.clear_caches()
+    c = _obtain(c, spec, case.get("via", 0), ev)
     poly = call(lambda: c.ge_polyhedron, what="ge_polyhedron")
     cols = list(poly.variables[1:])
     ids = [v.id for v in cols]
